@@ -193,17 +193,32 @@ func runC05Case(r *ev.Run, c c05Case) {
 			wantMailParams["RET"] = "HDRS"
 		}
 	case strings.HasPrefix(c.DSN, "notify:"):
+		_, list, _ := strings.Cut(c.DSN, ":")
 		var ns []mail.DSNRcptNotifyOption
-		for _, n := range strings.Split(strings.TrimPrefix(c.DSN, "notify:"), ",") {
+		for _, n := range strings.Split(list, ",") {
 			ns = append(ns, mail.DSNRcptNotifyOption(n))
 		}
+		opt := mail.WithDSNRcptNotifyType(ns...)
 		// the typed setter may reject the combination
-		if _, err := mail.NewClient(netHost, mail.WithDSNRcptNotifyType(ns...)); err != nil {
+		if _, err := mail.NewClient(netHost, opt); err != nil {
 			r.Count("dsn_options_rejected", 1)
 		} else {
-			opts = append(opts, mail.WithDSNRcptNotifyType(ns...))
+			r.Count("dsn_options_accepted", 1)
+			opts = append(opts, opt)
 			if has("DSN") {
-				wantRcptParams["NOTIFY"] = strings.TrimPrefix(c.DSN, "notify:")
+				wantRcptParams["NOTIFY"] = list
+			}
+		}
+	case strings.HasPrefix(c.DSN, "ret:"):
+		_, val, _ := strings.Cut(c.DSN, ":")
+		opt := mail.WithDSNMailReturnType(mail.DSNMailReturnOption(val))
+		if _, err := mail.NewClient(netHost, opt); err != nil {
+			r.Count("dsn_options_rejected", 1)
+		} else {
+			r.Count("dsn_options_accepted", 1)
+			opts = append(opts, opt)
+			if has("DSN") {
+				wantMailParams["RET"] = val
 			}
 		}
 	}
@@ -488,7 +503,15 @@ func runC05(r *ev.Run, rep *ev.ReplayDoc) ev.Summary {
 			cases = append(cases, c05Case{From: plain(0), To: []c05Addr{plain(1)}, Auth: mech, User: u, Pass: c05Creds[(i+3)%len(c05Creds)], Caps: allCaps, Kind: "credentials"})
 		}
 	}
-	for _, d := range []string{"default", "hdrs", "notify:NEVER", "notify:SUCCESS", "notify:FAILURE,DELAY", "notify:SUCCESS,FAILURE,DELAY", "notify:NEVER,SUCCESS", "notify:BOGUS", "notify:SUCCESS FAILURE", "notify:NEVER ORCPT=rfc822;x", "notify:"} {
+	dsnSets := []string{"default", "hdrs", "notify:NEVER", "notify:SUCCESS", "notify:FAILURE,DELAY", "notify:SUCCESS,FAILURE,DELAY", "notify:NEVER,SUCCESS", "notify:BOGUS", "notify:SUCCESS FAILURE", "notify:NEVER ORCPT=rfc822;x", "notify:"}
+	// option values are strings underneath: padded, lower-case, line-breaking and parameter-smuggling spellings of the keywords
+	for _, v := range []string{"SUCCESS\r\n", "FAILURE\r\n,DELAY", "SUCCESS , DELAY", "NEVER ", " NEVER", "\tFAILURE", "success", "Success,delay", "SUCCESS\r\nRSET", "SUCCESS\n", "DELAY\r", "SUCCESS\x00", "SUCCESS ORCPT=rfc822;x@y.z", "FAILURE\r\nRCPT TO:<evil@example.org>"} {
+		dsnSets = append(dsnSets, "notify:"+v)
+	}
+	for _, v := range []string{"FULL", "HDRS", "FULL\r\n", "HDRS ", " FULL", "full", "hdrs", "HDRS ENVID=x", "FULL\r\nRSET", "FULL\n", "HDRS\x00", "BOGUS", ""} {
+		dsnSets = append(dsnSets, "ret:"+v)
+	}
+	for _, d := range dsnSets {
 		for _, caps := range [][]string{allCaps, {"8BITMIME"}, {"DSN"}, nil} {
 			cases = append(cases, c05Case{From: plain(0), To: []c05Addr{plain(1), plain(2)}, DSN: d, Caps: caps, Kind: "dsn"})
 		}
